@@ -37,6 +37,9 @@ func (C18) Describe() CheckInfo {
 // --- job pools -------------------------------------------------------------------
 
 func genLibInput(r *Rand, format string, k int) []byte {
+	if format == "yaml-nopre" {
+		format = "yaml"
+	}
 	switch format {
 	case "yaml", "json":
 		fs := GenMultiFiles(r, MultiOpts{MaxFiles: 1, MaxDocs: 3, Format: format, PlainOnly: r.Chance(1, 2)})
@@ -62,7 +65,7 @@ func genThemedLibJob(r *Rand, k int, allowLoad bool, theme string) LibJob {
 		j.OutFmt = Pick(r, []string{"yaml", "yaml", "json0", "props", "xml"})
 		fs := GenMultiFiles(r.Fork("in"), MultiOpts{MaxFiles: 1, MaxDocs: 3, Format: j.InFmt, PlainOnly: r.Chance(1, 2)})
 		j.Input = Bytes(fs[0].Bytes())
-		if theme == "snippet" {
+		if theme == "snippet" || theme == "datetime" {
 			// scalars whose type has to be guessed again while evaluating: custom tags, CSV cells, dates
 			switch r.Intn(3) {
 			case 0:
@@ -93,10 +96,30 @@ func genThemedLibJob(r *Rand, k int, allowLoad bool, theme string) LibJob {
 	j.API = Pick(r, []string{"stream", "stream", "stream", "stream", "all", "all", "string", "stringall", "stream"})
 	j.InFmt = Pick(r, []string{"yaml", "yaml", "yaml", "yaml", "yaml", "json", "json", "props", "csv", "xml", "toml", "lua"})
 	j.OutFmt = Pick(r, []string{"yaml", "yaml", "yaml", "json", "json0", "json0", "props", "xml", "xml"})
+	if r.Chance(1, 6) {
+		// yaml decoder without header pre-processing, sometimes on a comment-only input
+		j.InFmt = "yaml-nopre"
+	}
 	j.Input = Bytes(genLibInput(r.Fork("in"), j.InFmt, k))
 	j.DecSlot = r.Intn(2)
 	j.EncSlot = r.Intn(2)
-	if j.InFmt == "yaml" || j.InFmt == "json" {
+	if j.InFmt == "yaml-nopre" {
+		if r.Chance(1, 3) {
+			j.Input = Bytes(Pick(r, []string{"# just a comment\n", "# two\n# lines\n", "# c\n---\n# d\n"}))
+		} else {
+			j.Input = Bytes(genLibInput(r.Fork("in"), "yaml", k))
+		}
+	}
+	if r.Chance(1, 10) {
+		// csv / tsv output of a sequence result
+		j.OutFmt = Pick(r, []string{"csv", "tsv"})
+		j.InFmt = "yaml"
+		j.Input = Bytes(genLibInput(r.Fork("in"), "yaml", k))
+		j.Expr = Pick(r, []string{".d", ".e", "[.d]", ".e | map(.k)"})
+		j.DecSlot, j.EncSlot = r.Intn(2), r.Intn(2)
+		return j
+	}
+	if j.InFmt == "yaml" || j.InFmt == "json" || j.InFmt == "yaml-nopre" {
 		e := GenExprWhere(r.Fork("expr"), func(e Expr) bool { return !strings.Contains(e.Family, "splitdoc") })
 		j.Expr = e.Combined()
 	} else {
@@ -115,7 +138,7 @@ func genThemedLibJob(r *Rand, k int, allowLoad bool, theme string) LibJob {
 	case 4:
 		if allowLoad {
 			uniq := DocID(r, k, 9)
-			switch r.Intn(4) {
+			switch r.Intn(5) {
 			case 0:
 				name := fmt.Sprintf("l%d.yaml", k)
 				j.Files = []File{{Name: name, Data: Bytes("v: " + uniq + "\nw: [1, 2]\n")}}
@@ -128,6 +151,11 @@ func genThemedLibJob(r *Rand, k int, allowLoad bool, theme string) LibJob {
 				name := fmt.Sprintf("x%d.xml", k)
 				j.Files = []File{{Name: name, Data: Bytes("<r><v>" + uniq + "</v></r>\n")}}
 				j.Expr = fmt.Sprintf(".loaded = load_xml(\"%s\").r.v", name)
+			case 3:
+				// the loaded tree is updated in place: nothing of that may stay behind
+				name := fmt.Sprintf("t%d.yaml", k)
+				j.Files = []File{{Name: name, Data: Bytes("owners: [root]\nn: 1\nv: " + uniq + "\n")}}
+				j.Expr = Pick(r, []string{fmt.Sprintf(". as $d | load(\"%s\") | .owners += [$d.id]", name), fmt.Sprintf(".tpl = load(\"%s\") | .tpl.n += .a", name), fmt.Sprintf(".a as $a | load(\"%s\") | .n |= . + $a", name)})
 			default:
 				name := fmt.Sprintf("s%d.txt", k)
 				j.Files = []File{{Name: name, Data: Bytes(uniq)}}
@@ -298,7 +326,7 @@ func genFrontMatterScenario(r *Rand) *Scenario {
 
 var (
 	clockRe   = regexp.MustCompile(`\d\d:\d\d:\d\d`)
-	tempRe    = regexp.MustCompile(`temp\d+`)
+	tempRe    = regexp.MustCompile(`(temp|\.yq-tmp-)\d+`)
 	sandboxRe = regexp.MustCompile(`(/dev/shm|/[^ ]*\.scratch)/yqsim\.\d+/s\d+`)
 	addrRe    = regexp.MustCompile(`0x[0-9a-f]{6,}`)
 	goroutRe  = regexp.MustCompile(`goroutine \d+`)
